@@ -39,6 +39,7 @@ def run(ctx, rep):
     import c01
     import engine
     c01.check_frame_kinds(fx, engine.SubReport(rep, 'C01'))
+    check_wrapped_opcodes(fx, rep, parent, cls)
     roles = {}
     for c in cls:
         roles.setdefault(c.role, []).append(c)
@@ -246,3 +247,57 @@ def check_log(fx, rep, roles):
                 rep.violation('R5-log', 'evidence', 'the log hook is called without the evidence logs.len() == previous + 1', c.fn.where())
     if ok and notified:
         rep.ok('R5-log', 'log-wrapper', 'instruction x1; hook only when exactly one log was appended')
+
+
+def check_wrapped_opcodes(fx, rep, parent, cls):
+    """R6: which opcodes get the notification wrappers.  The `log` wrapper is installed on exactly
+    LOG0..LOG4 (0xA0..=0xA4) and the `selfdestruct` wrapper on 0xFF: the opcode argument of each
+    InstructionTables::update_boxed call is a constant or ranges over a constant (inclusive or
+    exclusive) range, evaluated here."""
+    from cfg import Origins
+    og = Origins(parent, fx)
+    role_of = {c.fn.nq: c.role for c in cls}
+    got = {}
+    for bi, t in parent.calls():
+        if not (t.target_fn or '').endswith('InstructionTables::update_boxed') or len(t.args) < 3:
+            continue
+        role = None
+        for o in og.of_operand(t.args[2]):
+            if o.root[0] == 'agg':
+                role = role_of.get(o.root[1])
+        ops = set()
+        for o in og.of_operand(t.args[1]):
+            if o.root[0] == 'const' and o.root[1] is not None and not o.path:
+                ops.add(int(o.root[1]))
+            elif o.root[0] == 'call' and o.root[1].endswith('::next') and o.path == ('@Some', '.0'):
+                it = og.of_operand(parent.blocks[o.root[2]].term.args[0])
+                for x in it:
+                    src = og.of_operand(parent.blocks[x.root[2]].term.args[0]) if x.root[0] == 'call' and x.root[1].endswith('into_iter') else [x]
+                    for r in src:
+                        lo = hi = None
+                        if r.root[0] == 'call' and r.root[1].endswith('RangeInclusive::new'):
+                            a = [og.of_operand(z) for z in parent.blocks[r.root[2]].term.args[:2]]
+                            if all(len(z) == 1 and z[0].root[0] == 'const' and z[0].root[1] is not None for z in a):
+                                lo, hi = int(a[0][0].root[1]), int(a[1][0].root[1]) + 1
+                        elif r.root[0] == 'agg' and r.root[1].endswith('::Range') and len(r.root[4]) == 2:
+                            a = [list(z) for z in r.root[4]]
+                            if all(len(z) == 1 and z[0].root[0] == 'const' and z[0].root[1] is not None for z in a):
+                                lo, hi = int(a[0][0].root[1]), int(a[1][0].root[1])
+                        if lo is None:
+                            ops.add('?')
+                        else:
+                            ops.update(range(lo, hi))
+            else:
+                ops.add('?')
+        got.setdefault(role, set()).update(ops)
+    want = {'log': set(range(0xA0, 0xA5)), 'selfdestruct': {0xFF}}
+    for role, w in want.items():
+        g = got.get(role)
+        if g == w:
+            rep.ok('R6-wrapped-opcodes', role, ', '.join('0x%02X' % x for x in sorted(w)))
+        else:
+            rep.violation('R6-wrapped-opcodes', role, 'the %s notification wrapper is installed on opcodes %s; it must cover exactly %s (an uncovered opcode executes without the hook)' % (
+                role, sorted(g, key=str) if g else 'none', ['0x%02X' % x for x in sorted(w)]), parent.where())
+    extra = set(got) - set(want)
+    if extra:
+        rep.violation('R6-wrapped-opcodes', 'other', 'update_boxed installs wrappers of unrecognised role %s' % sorted(map(str, extra)), parent.where())
